@@ -231,7 +231,35 @@ def _limit_memory():
         pass
 
 
+_case_deps_built = set()
+
+
+def ensure_case_deps(path):
+    """Build the PySMT libraries a case file imports (they may lie outside the closure of the
+    property file, e.g. core/CaseUtil): a check must not depend on `./check setup` having run."""
+    try:
+        with open(path) as f:
+            head = "".join(f.readline() for _ in range(40))
+    except OSError:
+        return
+    targets = []
+    for m in re.finditer(r'From\s+PySMT\.(\w+)\s+Require\s+(?:Import|Export)?\s*([^.]*)\.', head):
+        for name in m.group(2).split():
+            targets.append("%s/%s.vo" % (m.group(1), name))
+    for m in re.finditer(r'Require\s+(?:Import|Export)?\s*((?:PySMT\.\w+\.\w+\s*)+)\.', head):
+        for q in m.group(1).split():
+            parts = q.split(".")
+            if len(parts) == 3:
+                targets.append("%s/%s.vo" % (parts[1], parts[2]))
+    todo = [t for t in dict.fromkeys(targets) if t not in _case_deps_built
+            and os.path.exists(os.path.join(COQ, t[:-1]))]
+    if todo:
+        coq_make(todo)
+        _case_deps_built.update(todo)
+
+
 def coqc_file(path, timeout=COQC_TIMEOUT):
+    ensure_case_deps(path)
     p = subprocess.run(["timeout", str(timeout), "coqc", "-Q", COQ, "PySMT",
                         "-w", "-notation-overridden,-deprecated-hint-without-locality,-deprecated-instance-without-locality", path],
                        stdout=subprocess.PIPE, stderr=subprocess.STDOUT, text=True,
